@@ -239,6 +239,10 @@ def sx_print(*a, **k):
 def sx_len(x):
     if hasattr(x, '_sx_len'):
         return x._sx_len()
+    if type(x) is dict:
+        side = _side(x)
+        if side:
+            return builtins.len(x) + builtins.len(side)     # keys stored through sx_setitem are pairwise distinct on the path
     return builtins.len(x)
 
 
@@ -296,7 +300,47 @@ def _int_table_lookup(d, i):
     return d[i.__index__()]
 
 
+def _side(d):
+    """entries stored on this path under a symbolic key (engine side table), newest first"""
+    if E.active() and isinstance(d, dict):
+        ent = E.cur().symstore.get(id(d))
+        if ent is not None:
+            return ent[1]
+    return None
+
+
+def sx_setitem(v, d, k):
+    if E.active() and type(d) is dict and isinstance(k, SymStr) and not k.is_concrete():
+        eng = E.cur()
+        side = eng.symstore.setdefault(id(d), (d, []))[1]
+        for j, (k2, _) in enumerate(side):
+            if k == k2:
+                side[j] = (k2, v)
+                return
+        for kc in list(d):
+            if isinstance(kc, str) and k == kc:
+                d[kc] = v
+                return
+        side.insert(0, (k, v))
+        return
+    if E.active() and isinstance(d, dict) and isinstance(k, str) and not isinstance(k, SymStr):
+        side = _side(d)
+        if side:
+            for j, (k2, _) in enumerate(side):
+                if k2 == k:
+                    side[j] = (k2, v)
+                    return
+    if isinstance(k, SymStr) and isinstance(d, dict):
+        k = k.concretize()
+    d[k] = v
+
+
 def sx_getitem(a, i):
+    side = _side(a)
+    if side and isinstance(i, (str, SymStr)):
+        for k2, v2 in side:
+            if k2 == i:
+                return v2
     if isinstance(i, SymInt):
         if isinstance(a, dict):
             return _int_table_lookup(a, i)
@@ -315,6 +359,11 @@ def sx_getitem(a, i):
 
 
 def sx_contains(c, x):
+    side = _side(c)
+    if side and isinstance(x, (str, SymStr)):
+        for k2, _ in side:
+            if k2 == x:
+                return True
     if isinstance(c, str) and isinstance(x, SymStr):
         return x in SymStr.lift(c)          # SymStr.__contains__ on the lifted container
     if isinstance(c, str) and isinstance(x, Opaque):
@@ -420,6 +469,14 @@ def sx_method(obj, name, *args, **kw):
         if name == 'format':
             raise E.Unsupported('str.format with symbolic argument')
         return getattr(SymStr.lift(obj), name)(*args, **kw)
+    if isinstance(obj, dict) and _side(obj):
+        if name == 'get' and args and isinstance(args[0], (str, SymStr)):
+            try:
+                return sx_getitem(obj, args[0])
+            except KeyError:
+                return args[1] if len(args) > 1 else kw.get('default', None)
+        if name in ('pop', 'popitem', 'setdefault', 'update', 'clear', 'keys', 'values', 'items', 'copy'):
+            raise E.Unsupported('dict.%s on a dict holding symbolic keys' % name)
     if isinstance(obj, dict) and name == 'get' and args and is_sym(args[0]):
         try:
             return sx_getitem(obj, args[0])
@@ -432,5 +489,5 @@ NAMESPACE = {
     'int': sx_int, 'float': sx_float, 'str': sx_str,
     'max': sx_max, 'min': sx_min, 'print': sx_print, 'repr': sx_repr, 'len': sx_len,
     '__sx_getitem__': sx_getitem, '__sx_contains__': sx_contains, '__sx_mod__': sx_mod,
-    '__sx_method__': sx_method,
+    '__sx_method__': sx_method, '__sx_setitem__': sx_setitem,
 }
